@@ -50,6 +50,10 @@ func (g *Gen) lambda(depth int, named bool) (*Node, *fnInfo) {
 
 func (g *Gen) fnStmt(depth int) *Node {
 	name := g.pick(fnNames)
+	// `fn` declares name~ before its body is compiled: a call of that name inside the body is a
+	// recursive call.  The body must not call it (unbounded recursion), so the name is a
+	// placeholder while the body is generated.
+	g.declare(name+"~", &varInfo{kind: KFn})
 	lam, fi := g.lambda(depth, true)
 	g.declare(name+"~", &varInfo{kind: KFn, fn: fi})
 	return Stmt(&Node{T: "fn", Name: name, Lam: lam})
